@@ -34,11 +34,21 @@ type binResult struct {
 	Timeout bool
 }
 
+// runEvyBin runs the program through the built binary; a run that does not finish within 10 s is repeated once
+// with 60 s (on a loaded machine process start alone has taken longer than 10 s), and only a second timeout counts.
 func runEvyBin(bin, src string, stdin string, flags ...string) binResult {
+	res := runEvyBinT(10*time.Second, bin, src, stdin, flags...)
+	if res.Timeout {
+		res = runEvyBinT(60*time.Second, bin, src, stdin, flags...)
+	}
+	return res
+}
+
+func runEvyBinT(limit time.Duration, bin, src string, stdin string, flags ...string) binResult {
 	dir := filepath.Dir(bin)
 	file := filepath.Join(dir, "prog.evy")
 	os.WriteFile(file, []byte(src), 0o644)
-	ctx, cancel := context.WithTimeout(context.Background(), 10*time.Second)
+	ctx, cancel := context.WithTimeout(context.Background(), limit)
 	defer cancel()
 	args := append([]string{"run", "--skip-sleep"}, flags...)
 	args = append(args, file)
@@ -151,7 +161,7 @@ func c13Binary(cfg Config, model *Model, r *Result) {
 		in["stdin"] = stdin
 		implDesc := map[string]any{"status": res.Status, "stdout": res.Stdout, "stderr": res.Stderr}
 		if res.Timeout {
-			r.Violate(Violation{Kind: "property", Key: "bin-timeout:" + c.Origin, Detail: "evy run did not finish within 10 s", Input: in})
+			r.Violate(Violation{Kind: "property", Key: "bin-timeout:" + c.Origin, Detail: "evy run did not finish within 10 s nor, repeated, within 60 s", Input: in})
 			continue
 		}
 		// host crash: Go's runtime prints a goroutine trace and exits with status 2
